@@ -24,6 +24,81 @@ NOT_DECIDED = ("finiteness (NaN / infinity propagate through f64::clamp and the 
                "numeric value of the bound check; BasicFilter bounds")
 
 
+FLOAT_TO_DURATION = ("from_seconds",)
+
+
+def _float_terms(t, out):
+    """sub-terms of a Duration-typed tree that come from a floating point value"""
+    t = df.strip(t)
+    if t[0] == "call":
+        if t[2] in FLOAT_TO_DURATION and len(t[3]) == 1:
+            x = df.strip(t[3][0])
+            if x[0] != "const":
+                out.append(x)
+            return
+        for a in t[3]:
+            _float_terms(a, out)
+    elif t[0] in ("bin",):
+        _float_terms(t[2], out)
+        _float_terms(t[3], out)
+    elif t[0] == "un":
+        _float_terms(t[2], out)
+    elif t[0] in ("ref", "deref", "cast"):
+        _float_terms(t[-1] if t[0] != "cast" else t[2], out)
+
+
+def _unneg(t):
+    t = df.strip(t)
+    while (t[0] == "un" and t[1] == "Neg") or (t[0] == "call" and t[2] == "neg" and len(t[3]) == 1):
+        t = df.strip(t[2] if t[0] == "un" else t[3][0])
+    return t
+
+
+def check_finite(rep, prog):
+    CLOCK = "statime::clock::Clock"
+    n = 0
+    for b in sorted(prog.bodies.values(), key=lambda x: x.key):
+        if b.unit.name != "statime-lib" or b.is_test() or "::filters::" not in b.key:
+            continue
+        c = None
+        for bi, t, cal in mir.iter_calls(b):
+            if cal.get("trait") != CLOCK or cal["name"] not in ("set_frequency", "step_clock"):
+                continue
+            c = c or cnd.conds(prog, b)
+            arg = df.strip(c.prov.op_tree(t["args"][1]))
+            where = fc.where(b, t["sp"][1])
+            construct = "%s(%s)" % (cal["name"], df.canon(arg, b)[:60])
+            n += 1
+            if arg[0] == "const":
+                rep.ok("SERVO-7", b.key, construct, detail="constant", where=where)
+                continue
+            checked = set()
+            for l in c.must_literals(bi):
+                if l[0] == "bool" and l[2] is True:
+                    tr = df.strip(l[1])
+                    if tr[0] == "call" and tr[2] == "is_finite" and len(tr[3]) == 1:
+                        checked.add(df.canon(_unneg(tr[3][0]), b))
+            if cal["name"] == "set_frequency":
+                need = [arg]
+            else:
+                need = []
+                _float_terms(arg, need)
+                if not need:
+                    rep.ok("SERVO-7", b.key, construct, detail="Duration arithmetic only: finite by type", where=where)
+                    continue
+            missing = [df.canon(x, b) for x in need if df.canon(_unneg(x), b) not in checked]
+            if not missing:
+                rep.ok("SERVO-7", b.key, construct, detail={"is_finite_checked": sorted(checked)}, where=where)
+            else:
+                rep.violation("SERVO-7", b.key, construct,
+                              "%s hands `%s` to the clock; no is_finite() check of that value holds on every path to "
+                              "the call (checked here: %s): a NaN/infinite filter state (e.g. 0/0 from repeated event "
+                              "times or zero-variance samples) becomes a clock command" % (
+                                  cal["name"], "`, `".join(missing), sorted(checked) or "nothing"), where=where)
+    if n == 0:
+        rep.anchor_missing("SERVO-7", "no Clock::set_frequency/step_clock call found in statime::filters")
+
+
 def check_servo6(rep, prog, kal):
     from sa.stores import stores
     n_init = 0
@@ -73,6 +148,12 @@ def check_servo6(rep, prog, kal):
 
 
 def run(ctx):
+    _run(ctx)
+    import witness
+    witness.report(ctx, "C13")
+
+
+def _run(ctx):
     rep = ctx.report
     prog = ctx.prog("default")
     cg = callgraph(prog)
@@ -81,6 +162,8 @@ def run(ctx):
     rep.rule("SERVO-3", "step only at or above the threshold, with the negated offset; slew target clamped", floor=3)
     rep.rule("SERVO-4", "demobilize consumes the filter and issues at most one clamped frequency command", floor=3)
     rep.rule("SERVO-5", "BasicFilter clock calls enumerated", floor=3)
+    rep.rule("SERVO-7", "every frequency / step handed to the clock by a filter is a constant, finite by type (fixed-point "
+                        "Duration arithmetic), or checked with is_finite() on every path to the call", floor=6)
     rep.rule("SERVO-6", "a Kalman servo that never received an offset sample cannot command the clock frequency: "
                         "ensure_freq_init only under a sync/delay offset sample, set_frequency in change_frequency "
                         "only under cur_frequency = Some, no other writer makes cur_frequency Some", floor=4)
@@ -121,6 +204,7 @@ def run(ctx):
                                       "the frequency programmed into the clock is `%s`: it does not pass through "
                                       "clamp_adjustment(current, _, config.max_freq_offset)" % s, where=where)
     check_servo6(rep, prog, kal)
+    check_finite(rep, prog)
     allowed = {"change_frequency", "ensure_freq_init", "step"}
     for name, lst in sorted(callers.items()):
         for (b, bi, t, cal) in lst:
